@@ -43,7 +43,10 @@ CHECKS = {
                 text='TLC explores cancel() at every activation boundary (before start, delayed start, suspended, finished, '
                      'repeated, self-cancel, racing a forced close) with awaiters and status probes; replay on the real Task; '
                      'TLC validates traces against ObsC06 (status forward-only, stable result, all awaiters agree, pre-start cancel '
-                     'prevents any code, suspended cancel lands in the same time step, cancel never breaks scope/run).',
+                     'prevents any code, suspended cancel lands in the same time step, cancel never breaks scope/run, a task that '
+                     'certainly was not runnable when cancelled does not return normally from its wait, every awaiter of a done '
+                     'task is resumed).  Configurations include graceful clean-up handlers, nested tasks and two controllers '
+                     'cancelling one task around a flag wake-up in one time step; the whole-vocabulary corpus is validated too.',
                 note='Bounded programs. A delayed task cancelled in the very time step of its start date is treated as racing '
                      '(either outcome accepted), see DESIGN.md section 6.'),
     'C07': dict(obs='ObsC07', ref='4/C07',
